@@ -727,7 +727,8 @@ def run(ctx):
     tv = [[t, v] for t in ts for v in vs if (t in tiny or v in tiny)]
     tv_neg_zero = [[-0.0, 0.2], [0.25, -0.0], [-0.0, -0.0]]     # negative zero IS zero time / volatility
     extra_s = ctx.extra_symbol("abs_log_moneyness", [0.001, 0.1, 0.25, 1.0, 2.0])
-    s_abs = [0.5, 0.0, 0.01, 1e-9, 5.0] + [extra_s]
+    # really large |log-moneyness| too (deep in / out of the money; exp(80)*K stays finite in float32 for the strikes used)
+    s_abs = [0.5, 0.0, 0.01, 1e-9, 5.0] + [extra_s] + [20.0, 40.0, 80.0]
     s_alpha = _both_signs(s_abs)
     m_off = ["same", 1e-9, 0.05, 1.0, "to_zero", "cross"]
     extra_k = ctx.extra_symbol("strike", [0.8, 0.9, 2.0, 100.0, 0.125])
@@ -736,7 +737,7 @@ def run(ctx):
         ts2 = tiny + [1e-30, 1e-6, 0.004, 0.25, 1.0, 30.0]
         vs2 = [0.2] + tiny + [1e-30, 1e-6, 0.01, 1.0, 5.0]
         tv = [[t, v] for t in ts2 for v in vs2 if (t in tiny + [1e-30] or v in tiny + [1e-30])]
-        s_abs = [0.5, 0.0, 1e-12, 1e-9, 1e-4, 0.01, 0.1, 1.0, 5.0, 20.0] + [extra_s]
+        s_abs = [0.5, 0.0, 1e-12, 1e-9, 1e-4, 0.01, 0.1, 1.0, 5.0, 20.0] + [extra_s] + [30.0, 40.0, 60.0, 80.0]
         s_alpha = _both_signs(s_abs)
         m_off = ["same", 1e-12, 1e-9, 0.001, 0.05, 1.0, "to_zero", "cross"]
         strikes = [1.0, 0.5, 1.3, 1.1, 0.7, 3.0, 10.0, 0.01, 250.0, extra_k]
